@@ -128,6 +128,56 @@ def check(chk: Check) -> None:
                         nested.append('the engine call `%s` sits in a loop: every iteration gets a fresh timeout, so the total '
                                       'time is (number of iterations) x timeout, not one timeout' % e.text())
             chk.require(not nested, R3, ent.label, fi.where, '; '.join(sorted(set(nested))[:3]) or 'no nested loops around the engine call')
+    # engine calls outside the function table: a helper module whose function is published to programs some other way (the
+    # front end overriding a table entry, a host binding it) is reachable all the same.  Only calls whose pattern is not a
+    # constant matter - a fixed pattern of the package's own is not chosen by the program.
+    analysed = set()
+    for key in tab:
+        fi0 = tab[key].funcinfo(F)
+        if fi0 is not None:
+            analysed.add(fi0.qual)
+    for q, fi in sorted(F.functions.items()):
+        if '.ply' in fi.module.name or q in analysed or not isinstance(fi.node, ast.FunctionDef):
+            continue
+        if not any(isinstance(n, ast.Attribute) and n.attr in MATCHING for n in ast.walk(fi.node)):
+            continue
+        if any(q.startswith(a + '.') for a in analysed):
+            continue
+        try:
+            paths = SymExec(F, fi).run()
+        except AnalysisError:
+            continue
+        problems = []
+        n_here = 0
+        for p in paths:
+            for e in p.events:
+                ec = engine_call(e)
+                if ec is None or e.depth() and e.fn in analysed:
+                    continue
+                f = freeze(e.func)
+                pat = None
+                if isinstance(f, tuple) and f[:2] == ('ref', 'ext'):
+                    pat = freeze(e.args[0]) if e.args else dict(freeze(e.kwargs)).get('pattern')
+                elif isinstance(f, tuple) and f[:1] == ('attr',) and isinstance(f[1], tuple) and f[1][:1] == ('call',) and f[1][3]:
+                    pat = f[1][3][0]
+                elif _compiled_modvar(f[1] if isinstance(f, tuple) and len(f) > 1 else None):
+                    continue                    # compiled once at import from a constant
+                if pat is not None and is_const(pat):
+                    continue
+                n_here += 1
+                mod, fn = ec
+                kw = dict(freeze(e.kwargs))
+                t = kw.get('timeout')
+                if mod == 're':
+                    problems.append('`%s`: stdlib re has no timeout' % e.text())
+                elif t is None or not is_const(t) or t[1] is None or isinstance(t[1], bool) or not isinstance(t[1], (int, float)) or not (0 < t[1] <= T_MAX):
+                    problems.append('`%s`: timeout=%s is not a small positive constant' % (e.text(), show(t) if t is not None else '<missing>'))
+                if len(e.in_ctx('loop')) + len(e.in_ctx('comp')) >= 1:
+                    problems.append('the engine call `%s` sits in a loop: every iteration gets a fresh timeout, so the total time is '
+                                    '(number of iterations) x timeout, not one timeout' % e.text())
+        if n_here:
+            chk.require(not problems, R3 if any('loop' in x for x in problems) else R1, '%s (engine call outside the function table)' % q,
+                        fi.where, '; '.join(sorted(set(problems))[:3]) or '%d engine call(s) with a program-chosen pattern, timed and not in a loop' % n_here)
     # R2 self-test + verdict
     ex = ast.parse("import re\ndef f(p, s):\n    return re.search(p, s)\n")
     found = [n for n in ast.walk(ex) if isinstance(n, ast.Call) and isinstance(n.func, ast.Attribute) and n.func.attr in MATCHING]
